@@ -1299,4 +1299,7 @@ except ImportError:
     B("m-int-order-returns-p", ["C13"], [(GR, "    def order(self):\n        return self.q\n", "    def order(self):\n        return self.p\n")], tests="killed"),
     B("m-int-scalar-decoder-wants-element-width", ["C15"], [(GR, "        assert len(b) == self.scalar_size_bytes", "        assert len(b) == self.element_size_bytes")], tests="killed",
       note="every group whose scalars are shorter than its elements can no longer restore a scalar"),
+    # ---- from the sweep on the modernised tree: with lazily reduced formulas one missing final reduction lets sizes square per step
+    B("pall-shared-tail-y-unreduced", ["C13"], [(ED, "(G*H) % Q", "(G*H)")], base="seeded_neutral/PALL", tests="killed",
+      note="the tests time out: coordinates of degree 4 in unreduced inputs, 250 doublings"),
 ]
